@@ -369,10 +369,23 @@ def run_history(case, skip=None):
     nw = len(world.ws)
     g = snapshot(world)
     released_ever = set()
+    polluted = False      # an invariant broke earlier: the model's predictions are no longer trusted,
+    seen_sigs = set()     # only the invariants and the C15 snapshot comparison go on (max_after more steps)
+    after_pollution = 0
     for raw in case['ops']:
         raw = tuple(tuple(x) if isinstance(x, list) else x for x in raw)
         attrs = world.attrs()
-        cop, eff = resolve(raw, g, nw, attrs)
+        if polluted:
+            after_pollution += 1
+            if after_pollution > 6:
+                break
+            try:
+                cop, eff = resolve(raw, g, nw, attrs)
+            except Exception:
+                continue
+            eff = graph.Effect(UNJUDGED, [g], (), 'state-already-broken')
+        else:
+            cop, eff = resolve(raw, g, nw, attrs)
         if skip is not None:
             fid = skip(cop, eff, g)
             if fid:
@@ -395,12 +408,14 @@ def run_history(case, skip=None):
         try:
             post = snapshot(world)
         except RecursionError:
-            rep.viol.append(('C01', 'C01:getter-overflows-after:%s(%s)' % (kind, outcome), desc))
+            if not polluted:
+                rep.viol.append(('C01', 'C01:getter-overflows-after:%s(%s)' % (kind, outcome), desc))
             rep.cut = True
             break
+        nviol_before = len(rep.viol)
         sigtail = '%s(%s,%s%s)' % (kind, outcome, eff.cls, ',' + eff.note if eff.note else '')
         # ---- facts for the non-triviality rules
-        attached = sum(1 for k in range(pre.n) if pre.container(k) is not None)
+        attached = 0 if polluted else sum(1 for k in range(pre.n) if pre.container(k) is not None)
         if kind in HIER:
             rep.flags['hier'] += 1
         if kind in DEPS:
@@ -413,7 +428,7 @@ def run_history(case, skip=None):
             rep.flags['raised'] += 1
             if attached >= 3:
                 rep.flags['raised-on-big'] += 1
-            if kind in SEQ_KINDS and len(cop[2]) >= 2:
+            if kind in SEQ_KINDS and len(cop[2]) >= 2 and not polluted:
                 first_ok = graph.effect(pre, cop[:2] + (cop[2][:1],) + cop[3:], attrs).cls == LEGAL
                 if first_ok:
                     rep.flags['raised-late-offender'] += 1
@@ -472,9 +487,9 @@ def run_history(case, skip=None):
         # ---- invariants on the real state, whether the call returned or raised
         for clause in graph.invariants(post):
             rep.viol.append((clause[:3], '%s:after:%s' % (clause, sigtail), desc))
-        if not any(p in ('C01', 'C05', 'C11') for p, _, _ in rep.viol):
+        if not polluted and not any(p in ('C01', 'C05', 'C11') for p, _, _ in rep.viol):
             _lookup_checks(world, post, rep, desc)
-        if not any(p in ('C01', 'C05', 'C11') for p, _, _ in rep.viol):
+        if not polluted and not any(p in ('C01', 'C05', 'C11') for p, _, _ in rep.viol):
             _getter_checks(world, post, rep, desc)
         # ---- C11 bookkeeping
         if exc is None and eff.cls == LEGAL:
@@ -482,6 +497,11 @@ def run_history(case, skip=None):
                 if pre.wbs_of(r) is not None:
                     released_ever.add(r)
                     rep.flags['released'] += 1
+                    # "a task removed from a WBS ... reports no owner, no longer appears in the WBS"
+                    still = [x for x in eff.cands[0].subtree(r) if x < post.n and (post.owner[x] is not None or post.wbs_of(x) is not None)]
+                    if still:
+                        rep.viol.append(('C11', 'C11:removed-task-still-owned-or-listed:' + sigtail, dict(desc, tasks=still)))
+                        break
             if kind in ('append', 'set_parent', 'insert', 'set_children', 'floordiv'):
                 movers = ([cop[1]] if kind == 'set_parent' else [cop[2]] if kind in ('append', 'insert')
                           else [x for x in cop[2] if x is not None])
@@ -491,10 +511,21 @@ def run_history(case, skip=None):
                     if pre.wbs_of(m) is None and post.wbs_of(m) is not None and len(pre.subtree(m)) >= 2:
                         rep.flags['subtree-adopted'] += 1
         g = post
-        # a broken invariant pollutes the state: stop there.  C15 / C16 findings do not (the state is
-        # still a well-formed graph, taken over from the real snapshot), so the history goes on.
-        if any(p in ('C01', 'C05', 'C11') for p, _, _ in rep.viol):
+        # a broken invariant pollutes the state: from there on the model is not consulted any more (no C16 / C05
+        # must-raise judgement), only the invariants of the real state and the C15 snapshot comparison continue
+        # for a few steps - each clause is reported once per history.  C15 / C16 findings alone do not pollute.
+        if polluted:
+            kept = []
+            for v_ in rep.viol[nviol_before:]:
+                key = v_[1].split(':after:')[0]
+                if key not in seen_sigs:
+                    seen_sigs.add(key)
+                    kept.append((v_[0], v_[1] + '[after-earlier-violation]', v_[2]))
+            rep.viol[nviol_before:] = kept
+        elif any(p in ('C01', 'C05', 'C11') for p, _, _ in rep.viol):
+            polluted = True
             rep.cut = True
-            break
+            for v_ in rep.viol:
+                seen_sigs.add(v_[1].split(':after:')[0])
     rep.final = g
     return rep
